@@ -465,3 +465,93 @@ def gen_loop_bounded(rng: random.Random) -> dict:
     exact = (lp["k"] + 1) * lp["iters"] + 1 + (1 if lp["family"] == "exit" else 0)
     c["cfg"] = {"maxIter": max(1, exact + rng.choice([-2, -1, 0, 0, 1, 5])), "errMode": rng.choice(["raise", "continue"])}
     return c
+
+
+# ---------------------------------------------------------------- map_over
+
+def gen_map_node(rng: random.Random) -> dict:
+    """Outer graph with one mapping nested-graph node (zip/product, items that fail or branch differently)."""
+    names = Names()
+    # inner graph: a(x, y, c) -> r ; optional branch gate producing b or s depending on x
+    branchy = rng.random() < 0.4
+    failing = rng.random() < 0.4
+    inner_nodes = []
+    body = {"b": "failIf", "k": rng.randint(0, 3), "t": "EA"} if failing else {"b": "tag", "t": "a"}
+    params = [["x", None]]
+    n_mapped = rng.randint(1, 3)
+    others = ["y", "z"][: n_mapped - 1]
+    for o in others:
+        params.append([o, None])
+    has_bcast = rng.random() < 0.6
+    if has_bcast:
+        params.append(["c", None])
+    inner_nodes.append(_fn_node("a", params, ["r"], body))
+    if branchy:
+        inner_nodes.append({"name": "gt", "kind": "ifelse", "params": [["x", None]], "targets": ["pb", "ps"], "body": {"b": "lt", "k": 2}})
+        inner_nodes.append(_fn_node("pb", [["x", None]], ["b"], {"b": "tag", "t": "pb"}))
+        inner_nodes.append(_fn_node("ps", [["x", None]], ["s"], {"b": "tag", "t": "ps"}))
+    inner = {"name": "g0", "nodes": inner_nodes, "bound": []}
+    mode = rng.choice(["zip", "product"])
+    err = rng.choice(["raise", "continue"])
+    mapped = ["x"] + others
+    ren = []
+    cur = {}
+    for p in mapped + (["c"] if has_bcast else []):
+        if rng.random() < 0.3:
+            cur[p] = names.fresh("q")
+            ren.append([p, cur[p]])
+        else:
+            cur[p] = p
+    out_ren = [["r", "rr"]] if rng.random() < 0.3 else []
+    gn = {"name": "mapper", "kind": "graph", "inner": 0, "inRen": ren, "outRen": out_ren,
+          "mapOver": [cur[p] for p in mapped], "mapMode": mode, "errMode": err}
+    outs = ["rr" if out_ren else "r"] + (["b", "s"] if branchy else [])
+    consumer = _fn_node("after", [[outs[0], None]], ["fin"], {"b": "tag", "t": "after"})
+    outer = {"name": "g1", "nodes": [gn, consumer], "bound": []}
+    L = rng.randint(0, 4)
+    values = []
+    for p in mapped:
+        ln = L if mode == "zip" and rng.random() < 0.9 else rng.randint(0, 3)
+        values.append([cur[p], {"l": [rng.randint(0, 4) for _ in range(ln)]}])
+    if has_bcast:
+        values.append([cur["c"], rand_value(rng)])
+    c = {"program": [inner, outer], "values": values}
+    return with_cfg(rng, c, outputs=outs + ["fin"])
+
+
+def gen_interrupt(rng: random.Random) -> dict:
+    """DAG with 1-3 interrupt nodes (async runner only); handlers pause or auto-respond."""
+    names = Names()
+    nodes = []
+    values = [["x", rng.randint(0, 5)]]
+    prev = "x"
+    n_int = rng.randint(1, 3)
+    pos = 0
+    for i in range(n_int):
+        if rng.random() < 0.6:
+            nn = names.fresh("n")
+            out = names.fresh("v")
+            nodes.append(_fn_node(nn, [[prev, None]], [out], {"b": "sum", "k": 1}))
+            prev = out
+        iname = f"ask{i}"
+        outs = [f"ans{i}"] if rng.random() < 0.7 else [f"ans{i}", f"more{i}"]
+        params = [[prev, None]]
+        if prev != "x" and rng.random() < 0.3:
+            params.append(["x", None])
+        k = None if rng.random() < 0.6 else rng.randint(0, 3)
+        node = {"name": iname, "kind": "interrupt", "params": params, "dataOuts": outs, "body": {"b": "handler", "k": k}}
+        if rng.random() < 0.3:
+            node["emits"] = [f"asked{i}"]
+        nodes.append(node)
+        # a sibling that is ready in the same step as the interrupt
+        if rng.random() < 0.5:
+            nodes.append(_fn_node(names.fresh("n"), [[prev, None]], [names.fresh("v")], {"b": "tag", "t": f"sib{i}"}))
+        prev = outs[0]
+        # supply the response up front sometimes (resume path)
+        if rng.random() < 0.35:
+            for o in outs:
+                values.append([o, rng.randint(10, 20)])
+    nodes.append(_fn_node("final", [[prev, None]], ["fin"], {"b": "tag", "t": "final"}))
+    if rng.random() < 0.5:
+        rng.shuffle(nodes)
+    return {"program": [{"name": "g0", "nodes": nodes, "bound": []}], "values": values, "async_only": True}
